@@ -172,6 +172,174 @@ Section Cookie.
   Qed.
 End Cookie.
 
+(* ------------------------------------------------------------------ cookie schemes: the layout is a free choice *)
+Record lawful (L : scheme) : Prop := {
+  law_unpack_pack : forall tag tsb, length tag = 32%nat -> length tsb = 4%nat ->
+                    sc_unpack L (sc_pack L tag tsb) = Some (tag, tsb);
+  law_pack_unpack : forall c tag tsb, sc_unpack L c = Some (tag, tsb) -> c = sc_pack L tag tsb /\ length tsb = 4%nat;
+  law_msg_inj : forall t1 b1 t2 b2, wf_tuple t1 -> wf_tuple t2 -> length b1 = 4%nat -> length b2 = 4%nat ->
+                sc_msg L t1 b1 = sc_msg L t2 b2 -> t1 = t2 /\ b1 = b2
+}.
+
+Lemma ts_of_put32 ts : ts < two32 -> ts_of (put32 ts) = ts.
+Proof. intros Hlt. destruct (be32_put32 _ Hlt) as (a & b & c & d & Hp & Hb). rewrite Hp. exact Hb. Qed.
+
+Section Scheme.
+  Variable L : scheme.
+  Variable H : bytes -> bytes.
+  Hypothesis HL : lawful L.
+
+  Definition smsg (i : tuple * N) : bytes := sc_msg L (fst i) (put32 (snd i)).
+  Definition scookie (i : tuple * N) : bytes := sc_pack L (H (smsg i)) (put32 (snd i)).
+
+  (* a cookie generated at second now_s verifies for its own tuple exactly while it is within its lifetime *)
+  Lemma scheme_roundtrip ttl now_ns now_s t : (forall d, length (H d) = 32%nat) ->
+    svalidate L H ttl now_ns (sgenerate L H now_s t) t = true <->
+    (now_ns - Z.of_N (now_s mod two32) * ns_per_s <= ttl)%Z.
+  Proof.
+    intros Hlen. unfold svalidate, sgenerate.
+    rewrite (law_unpack_pack _ HL) by (try apply Hlen; reflexivity).
+    rewrite ts_of_put32 by (unfold two32; lia).
+    replace (bytes_eqb _ _) with true by (symmetry; apply bytes_eqb_eq; reflexivity).
+    rewrite andb_true_r, negb_true_iff, Z.ltb_ge. reflexivity.
+  Qed.
+
+  (* what any scheme's Validate checks, premise-free *)
+  Lemma scheme_accepts_iff ttl now c t : svalidate L H ttl now c t = true <->
+    exists tag tsb, sc_unpack L c = Some (tag, tsb) /\ tag = H (sc_msg L t tsb) /\
+                    (now - Z.of_N (ts_of tsb) * ns_per_s <= ttl)%Z.
+  Proof.
+    unfold svalidate. destruct (sc_unpack L c) as [[tag tsb]|]; split.
+    - intros Hv. apply andb_true_iff in Hv as [H1 H2]. apply negb_true_iff, Z.ltb_ge in H1.
+      apply bytes_eqb_eq in H2. eauto.
+    - intros (tag' & ts' & He & Ht & Hf). inversion He; subst. apply andb_true_iff. split.
+      + apply negb_true_iff, Z.ltb_ge. exact Hf.
+      + apply bytes_eqb_eq. reflexivity.
+    - discriminate.
+    - intros (tag' & ts' & He & _). discriminate.
+  Qed.
+
+  (* soundness for ANY lawful layout, under unforgeability for the single (message, tag) pair presented:
+     an accepted cookie is, byte for byte, the cookie this BNG issued for the same tuple, within its lifetime *)
+  Lemma scheme_sound ttl now c t (issued : list (tuple * N)) :
+    (forall tag tsb, sc_unpack L c = Some (tag, tsb) -> tag = H (sc_msg L t tsb) ->
+                     In (sc_msg L t tsb) (map smsg issued)) ->
+    Forall wf_issue issued -> wf_tuple t ->
+    svalidate L H ttl now c t = true ->
+    exists ts, In (t, ts) issued /\ (now - Z.of_N ts * ns_per_s <= ttl)%Z /\ c = scookie (t, ts).
+  Proof.
+    intros Hunf Hwf Hwt Hv. apply scheme_accepts_iff in Hv as (tag & tsb & Hu & Ht & Hf).
+    destruct (law_pack_unpack _ HL _ _ _ Hu) as [Hc Hl].
+    specialize (Hunf _ _ Hu Ht). apply in_map_iff in Hunf as ([t' ts'] & He & Hin). unfold smsg in He. simpl in He.
+    rewrite Coq.Lists.List.Forall_forall in Hwf. destruct (Hwf _ Hin) as [Hw' Hts']. simpl in Hw', Hts'.
+    assert (Hl4 : length (put32 ts') = 4%nat) by reflexivity.
+    destruct (law_msg_inj _ HL _ _ _ _ Hw' Hwt Hl4 Hl He) as [-> <-].
+    exists ts'. split; [exact Hin|]. rewrite ts_of_put32 in Hf by exact Hts'. split; [exact Hf|].
+    unfold scookie, smsg. simpl. rewrite Hc, Ht. reflexivity.
+  Qed.
+
+  (* hence every lawful scheme refines the layout-free specification the correspondence uses: accepted iff the
+     cookie is one of those issued (as bytes), for that tuple, within its lifetime *)
+  Definition cookies_of (issued : list (tuple * N)) : list issued_cookie :=
+    map (fun i => (scookie i, fst i, snd i)) issued.
+
+  Lemma scheme_refines_ideal ttl now c t issued : (forall d, length (H d) = 32%nat) ->
+    (forall tag tsb, sc_unpack L c = Some (tag, tsb) -> tag = H (sc_msg L t tsb) ->
+                     In (sc_msg L t tsb) (map smsg issued)) ->
+    Forall wf_issue issued -> wf_tuple t ->
+    svalidate L H ttl now c t = ideal_validate (cookies_of issued) ttl now c t.
+  Proof.
+    intros Hlen Hunf Hwf Hwt. destruct (svalidate L H ttl now c t) eqn:Ev; symmetry.
+    - destruct (scheme_sound _ _ _ _ _ Hunf Hwf Hwt Ev) as (ts & Hin & Hf & Hc).
+      unfold ideal_validate. apply existsb_exists.
+      exists (scookie (t, ts), t, ts). split.
+      + unfold cookies_of. apply in_map_iff. exists (t, ts). auto.
+      + rewrite Hc. replace (bytes_eqb _ _) with true by (symmetry; apply bytes_eqb_eq; reflexivity).
+        replace (tuple_eqb t t) with true by (symmetry; apply tuple_eqb_eq; reflexivity).
+        simpl. apply negb_true_iff, Z.ltb_ge. exact Hf.
+    - destruct (ideal_validate (cookies_of issued) ttl now c t) eqn:Ei; [|reflexivity]. exfalso.
+      unfold ideal_validate in Ei. apply existsb_exists in Ei as ([[c' t'] ts] & Hin & Hb).
+      apply andb_true_iff in Hb as [Hb Hf]. apply andb_true_iff in Hb as [Hc Ht].
+      apply bytes_eqb_eq in Hc. apply tuple_eqb_eq in Ht. subst c' t'.
+      unfold cookies_of in Hin. apply in_map_iff in Hin as ([t2 ts2] & He & Hin). simpl in He.
+      injection He as E1 E2 E3. subst t2 ts2.
+      rewrite Coq.Lists.List.Forall_forall in Hwf. destruct (Hwf _ Hin) as [_ Hts]. simpl in Hts.
+      assert (Hv : svalidate L H ttl now (scookie (t, ts)) t = true).
+      { apply scheme_accepts_iff. exists (H (smsg (t, ts))), (put32 ts). split.
+        - unfold scookie. apply (law_unpack_pack _ HL); [apply Hlen | reflexivity].
+        - split; [reflexivity|]. rewrite ts_of_put32 by exact Hts. apply negb_true_iff, Z.ltb_ge in Hf. exact Hf. }
+      congruence.
+  Qed.
+End Scheme.
+
+(* /repo HEAD's layout is a lawful scheme, and it is exactly [generate] / [validate] *)
+Lemma go_copy_exact n l : length l = n -> go_copy (repeat 0 n) l = l.
+Proof.
+  intros <-. unfold go_copy. rewrite repeat_length, firstn_all.
+  rewrite skipn_all2 by (rewrite repeat_length; lia). apply app_nil_r.
+Qed.
+
+Lemma head_scheme_validate H ttl now c t : svalidate head_scheme H ttl now c t = validate H ttl now c t.
+Proof.
+  destruct t as [[mac sv] cv]. unfold svalidate, validate. cbn [sc_unpack head_scheme sc_msg].
+  destruct (Nat.eqb (length c) 36) eqn:El; cbn [negb]; [|reflexivity].
+  apply Nat.eqb_eq in El.
+  assert (Hl4 : length (skipn 32 c) = 4%nat) by (rewrite skipn_length; lia).
+  destruct (skipn 32 c) as [|a [|b [|c4 [|d [|? ?]]]]]; try discriminate Hl4. cbn [ts_of].
+  destruct (ttl <? _)%Z; reflexivity.
+Qed.
+
+Lemma head_scheme_generate H now t : (forall d, length (H d) = 32%nat) ->
+  sgenerate head_scheme H now t = generate H now t.
+Proof. intros Hlen. destruct t as [[mac sv] cv]. reflexivity. Qed.
+
+Lemma head_scheme_lawful : lawful head_scheme.
+Proof.
+  split.
+  - intros tag tsb Ht Hb. cbn [sc_unpack sc_pack head_scheme]. rewrite !go_copy_exact by assumption.
+    rewrite app_length, Ht, Hb. simpl Nat.eqb. cbv iota.
+    assert (E1 : firstn 32 (tag ++ tsb) = tag)
+      by (rewrite <- Ht, firstn_app, firstn_all, Nat.sub_diag; simpl; apply app_nil_r).
+    assert (E2 : skipn 32 (tag ++ tsb) = tsb)
+      by (rewrite <- Ht, skipn_app, skipn_all, Nat.sub_diag; reflexivity).
+    rewrite E1, E2. reflexivity.
+  - intros c tag tsb Hu. cbn [sc_unpack sc_pack head_scheme] in *.
+    destruct (Nat.eqb (length c) 36) eqn:El; [|discriminate]. apply Nat.eqb_eq in El. inversion Hu; subst.
+    assert (length (firstn 32 c) = 32%nat) by (rewrite firstn_length; lia).
+    assert (length (skipn 32 c) = 4%nat) by (rewrite skipn_length; lia).
+    rewrite !go_copy_exact by assumption. rewrite firstn_skipn. auto.
+  - intros [[m1 s1] c1] b1 [[m2 s2] c2] b2 [Hs1 Hc1] [Hs2 Hc2] Hl1 Hl2 He. cbn [sc_msg head_scheme] in He.
+    unfold enc_val in He.
+    assert (Hlen : length ([hi8 s1; lo8 s1] ++ [hi8 c1; lo8 c1] ++ b1) = length ([hi8 s2; lo8 s2] ++ [hi8 c2; lo8 c2] ++ b2))
+      by (rewrite !app_length, Hl1, Hl2; reflexivity).
+    apply app_inj_2 in He as [Hm He]; [|exact Hlen].
+    apply app_inj_1 in He as [Hs He]; [|reflexivity].
+    apply app_inj_1 in He as [Hc He]; [|reflexivity].
+    assert (s1 = s2) by (apply put16_inj; auto). assert (c1 = c2) by (apply put16_inj; auto). subst. auto.
+Qed.
+
+Lemma alt_scheme_lawful : lawful alt_scheme.
+Proof.
+  split.
+  - intros tag tsb Ht Hb. cbn [sc_unpack sc_pack alt_scheme]. rewrite !go_copy_exact by assumption.
+    rewrite app_length, Ht, Hb. simpl Nat.eqb. cbv iota.
+    assert (E1 : firstn 4 (tsb ++ tag) = tsb)
+      by (rewrite <- Hb, firstn_app, firstn_all, Nat.sub_diag; simpl; apply app_nil_r).
+    assert (E2 : skipn 4 (tsb ++ tag) = tag)
+      by (rewrite <- Hb, skipn_app, skipn_all, Nat.sub_diag; reflexivity).
+    rewrite E1, E2. reflexivity.
+  - intros c tag tsb Hu. cbn [sc_unpack sc_pack alt_scheme] in *.
+    destruct (Nat.eqb (length c) 36) eqn:El; [|discriminate]. apply Nat.eqb_eq in El. inversion Hu; subst.
+    assert (length (firstn 4 c) = 4%nat) by (rewrite firstn_length; lia).
+    assert (length (skipn 4 c) = 32%nat) by (rewrite skipn_length; lia).
+    rewrite !go_copy_exact by assumption. rewrite firstn_skipn. auto.
+  - intros [[m1 s1] c1] b1 [[m2 s2] c2] b2 [Hs1 Hc1] [Hs2 Hc2] Hl1 Hl2 He. cbn [sc_msg alt_scheme] in He.
+    apply app_inj_1 in He as [Hb He]; [|congruence].
+    apply app_inj_2 in He as [Hm He]; [|reflexivity].
+    apply app_inj_1 in He as [Hs Hc]; [|reflexivity].
+    assert (s1 = s2) by (apply put16_inj; auto). assert (c1 = c2) by (apply put16_inj; auto). subst. auto.
+Qed.
+
 (* ------------------------------------------------------------------ session-id allocation *)
 Definition nx (n : N) : N := let n1 := u16 (n + 1) in if N.eqb n1 0 then 1 else n1.
 
@@ -348,14 +516,14 @@ Qed.
 Lemma padr_begin_cases v e s t p oc r : padr_begin v e s t p oc = Some r ->
   r = (s, None) \/
   exists tg sid n', parse_tags p = Ok tg /\
-    validate (e_H e) (e_ttl e) (e_now_ns e) (t_cookie tg) t = true /\ e_grp e t = true /\
+    e_val e (t_cookie tg) t = true /\ e_grp e t = true /\
     alloc_choice v s oc = Ok (sid, n') /\
     ((sid = 0 /\ r = (set_next s n', None)) \/
      ((oc = Policy -> v_sid_guard v && N.eqb sid 0 = false) /\ (oc <> Policy -> sid <> 0) /\
       r = (bump_ctr (set_next s n'), Some {| s_uid := ctr s; s_sid := sid; s_tup := t |}))).
 Proof.
   unfold padr_begin. destruct (parse_tags p) as [tg|?| |]; try discriminate.
-  - destruct (validate _ _ _ _ _) eqn:Ev; simpl; [|intros Hx; inversion Hx; auto].
+  - destruct (e_val e _ _) eqn:Ev; simpl; [|intros Hx; inversion Hx; auto].
     destruct (e_grp e t) eqn:Eg; simpl; [|intros Hx; inversion Hx; auto].
     destruct (alloc_choice v s oc) as [[sid n']|?| |] eqn:Ea; try discriminate.
     destruct ((v_sid_guard v || negb match oc with Policy => true | _ => false end) && N.eqb sid 0) eqn:Eg0;
@@ -368,7 +536,7 @@ Proof.
 Qed.
 
 Lemma padr_begin_novalid v e s t p oc r : padr_begin v e s t p oc = Some r ->
-  (forall tg, parse_tags p = Ok tg -> validate (e_H e) (e_ttl e) (e_now_ns e) (t_cookie tg) t = false) ->
+  (forall tg, parse_tags p = Ok tg -> e_val e (t_cookie tg) t = false) ->
   r = (s, None).
 Proof.
   intros Hb Hv. apply padr_begin_cases in Hb as [->|(tg & sid & n' & Hp & Hval & _)]; [reflexivity|].
@@ -867,7 +1035,7 @@ Qed.
 (* ------------------------------------------------------------------ admission *)
 Lemma padr_needs_cookie v e s t p oc s' sid uid : step v e s (PADR t p oc) = Some (s', OPads sid uid) ->
   exists tg, parse_tags p = Ok tg /\
-    validate (e_H e) (e_ttl e) (e_now_ns e) (t_cookie tg) t = true /\ e_grp e t = true.
+    e_val e (t_cookie tg) t = true /\ e_grp e t = true.
 Proof.
   simpl. destruct (padr_begin v e s t p oc) as [[s1 [x|]]|] eqn:Eb; try discriminate. intros _.
   apply padr_begin_cases in Eb as [Hx|(tg & sid' & n' & Hp & Hv & Hg & _)]; [inversion Hx|]. eauto.
@@ -876,14 +1044,14 @@ Qed.
 (* the same for the first half of an interleaved PADR *)
 Lemma pbegin_needs_cookie v e s t p oc s' sid uid : step v e s (PBEGIN t p oc) = Some (s', OPend sid uid) ->
   exists tg, parse_tags p = Ok tg /\
-    validate (e_H e) (e_ttl e) (e_now_ns e) (t_cookie tg) t = true /\ e_grp e t = true.
+    e_val e (t_cookie tg) t = true /\ e_grp e t = true.
 Proof.
   simpl. destruct (padr_begin v e s t p oc) as [[s1 [x|]]|] eqn:Eb; try discriminate. intros _.
   apply padr_begin_cases in Eb as [Hx|(tg & sid' & n' & Hp & Hv & Hg & _)]; [inversion Hx|]. eauto.
 Qed.
 
 Lemma padr_rejected_no_state v e s t p oc s' r : step v e s (PADR t p oc) = Some (s', r) ->
-  (forall tg, parse_tags p = Ok tg -> validate (e_H e) (e_ttl e) (e_now_ns e) (t_cookie tg) t = false) ->
+  (forall tg, parse_tags p = Ok tg -> e_val e (t_cookie tg) t = false) ->
   s' = s /\ r = ONone.
 Proof.
   simpl. destruct (padr_begin v e s t p oc) as [[s1 ox]|] eqn:Eb; [|discriminate]. intros Hs Hv.
@@ -891,7 +1059,7 @@ Proof.
 Qed.
 
 Lemma pbegin_rejected_no_state v e s t p oc s' r : step v e s (PBEGIN t p oc) = Some (s', r) ->
-  (forall tg, parse_tags p = Ok tg -> validate (e_H e) (e_ttl e) (e_now_ns e) (t_cookie tg) t = false) ->
+  (forall tg, parse_tags p = Ok tg -> e_val e (t_cookie tg) t = false) ->
   s' = s /\ r = ONone.
 Proof.
   simpl. destruct (padr_begin v e s t p oc) as [[s1 ox]|] eqn:Eb; [|discriminate]. intros Hs Hv.
@@ -967,7 +1135,7 @@ Qed.
 
 (* ------------------------------------------------------------------ allocation inside PADR *)
 Lemma padr_creates_when_room v e s t p tg : reserving v -> Inv s -> parse_tags p = Ok tg ->
-  validate (e_H e) (e_ttl e) (e_now_ns e) (t_cookie tg) t = true -> e_grp e t = true ->
+  e_val e (t_cookie tg) t = true -> e_grp e t = true ->
   (exists j, 0 < j < 65536 /\ id_used v s j = false) ->
   exists s' sid, step v e s (PADR t p Policy) = Some (s', OPads sid (ctr s)) /\ 0 < sid < 65536 /\
     id_used v s sid = false /\ by_sid s' !! sid = Some {| s_uid := ctr s; s_sid := sid; s_tup := t |}.
@@ -1000,7 +1168,7 @@ Qed.
 
 (* every admissible observed choice is installed ... *)
 Lemma padr_chosen v e s t p tg c : parse_tags p = Ok tg ->
-  validate (e_H e) (e_ttl e) (e_now_ns e) (t_cookie tg) t = true -> e_grp e t = true ->
+  e_val e (t_cookie tg) t = true -> e_grp e t = true ->
   0 < c < 65536 -> id_used v s c = false ->
   exists s', step v e s (PADR t p (Chose c)) = Some (s', OPads c (ctr s)) /\
     by_sid s' !! c = Some {| s_uid := ctr s; s_sid := c; s_tup := t |}.
@@ -1014,7 +1182,7 @@ Qed.
 (* ... an inadmissible one (0, out of range, indexed or reserved id) is not a step of the model at all, and a
    refusal is one only when no id is free *)
 Lemma padr_choice_inadmissible v e s t p tg c : parse_tags p = Ok tg ->
-  validate (e_H e) (e_ttl e) (e_now_ns e) (t_cookie tg) t = true -> e_grp e t = true ->
+  e_val e (t_cookie tg) t = true -> e_grp e t = true ->
   c = 0 \/ 65536 <= c \/ id_used v s c = true -> step v e s (PADR t p (Chose c)) = None.
 Proof.
   intros Hp Hv Hgr Hc. cbn [step]. unfold padr_begin. rewrite Hp, Hv, Hgr. cbn [negb alloc_choice].
@@ -1025,7 +1193,7 @@ Proof.
 Qed.
 
 Lemma padr_refusal_inadmissible v e s t p tg j : parse_tags p = Ok tg ->
-  validate (e_H e) (e_ttl e) (e_now_ns e) (t_cookie tg) t = true -> e_grp e t = true ->
+  e_val e (t_cookie tg) t = true -> e_grp e t = true ->
   0 < j < 65536 -> id_used v s j = false -> step v e s (PADR t p Refused) = None.
 Proof.
   intros Hp Hv Hgr Hj Hu. cbn [step]. unfold padr_begin. rewrite Hp, Hv, Hgr. cbn [negb alloc_choice].
@@ -1035,7 +1203,7 @@ Qed.
 (* the code as first found (no id-0 guard): with all 65535 ids in use a valid PADR is answered with session-id 0 *)
 Lemma padr_full_defective v e s t p tg : v_sid_guard v = false -> 0 < next s < 65536 ->
   (forall j, 0 < j < 65536 -> id_used v s j = true) ->
-  parse_tags p = Ok tg -> validate (e_H e) (e_ttl e) (e_now_ns e) (t_cookie tg) t = true -> e_grp e t = true ->
+  parse_tags p = Ok tg -> e_val e (t_cookie tg) t = true -> e_grp e t = true ->
   exists s', step v e s (PADR t p Policy) = Some (s', OPads 0 (ctr s)) /\
     by_sid s' !! 0 = Some {| s_uid := ctr s; s_sid := 0; s_tup := t |}.
 Proof.
@@ -1055,8 +1223,8 @@ Qed.
 Lemma race_last_free_id v e s tA tB pA pB tgA tgB k :
   v_reserve v = false -> 0 < norm_next v (next s) < 65536 -> 0 < k < 65536 -> pend s = [] ->
   by_sid s !! k = None -> (forall j, 0 < j < 65536 -> j <> k -> by_sid s !! j <> None) ->
-  parse_tags pA = Ok tgA -> validate (e_H e) (e_ttl e) (e_now_ns e) (t_cookie tgA) tA = true -> e_grp e tA = true ->
-  parse_tags pB = Ok tgB -> validate (e_H e) (e_ttl e) (e_now_ns e) (t_cookie tgB) tB = true -> e_grp e tB = true ->
+  parse_tags pA = Ok tgA -> e_val e (t_cookie tgA) tA = true -> e_grp e tA = true ->
+  parse_tags pB = Ok tgB -> e_val e (t_cookie tgB) tB = true -> e_grp e tB = true ->
   tA <> tB ->
   exists s4 x y,
     run v e s [PBEGIN tA pA Policy; PBEGIN tB pB Policy; PCOMMIT (ctr s); PCOMMIT (N.succ (ctr s))] =
@@ -1219,23 +1387,24 @@ Proof.
   rewrite Hg, app_length, Hlen. reflexivity.
 Qed.
 
-(* the cookie of a PADO, echoed in a PADR by the same tuple within the lifetime, is admitted *)
-Lemma padi_padr_roundtrip v e s t s' c : (forall d, length (e_H e d) = 32%nat) ->
-  step v e s (PADI t) = Some (s', OPado c) ->
-  (e_now_ns e - Z.of_N (e_now_s e mod two32) * ns_per_s <= e_ttl e)%Z ->
+(* the cookie of a PADO, echoed in a PADR by the same tuple within the lifetime, is admitted — for every lawful
+   cookie scheme (the cookie is opaque: any layout that packs into fewer than 65536 bytes) *)
+Lemma padi_padr_roundtrip v L H ttl now_s now_ns grp s t s' c : lawful L -> (forall d, length (H d) = 32%nat) ->
+  step v (mk_env L H ttl now_s now_ns grp) s (PADI t) = Some (s', OPado c) ->
+  N.of_nat (length c) < 65536 ->
+  (now_ns - Z.of_N (now_s mod two32) * ns_per_s <= ttl)%Z ->
   exists tg, parse_tags (add_tag TagACCookie c) = Ok tg /\
-    validate (e_H e) (e_ttl e) (e_now_ns e) (t_cookie tg) t = true.
+    e_val (mk_env L H ttl now_s now_ns grp) (t_cookie tg) t = true.
 Proof.
-  intros Hlen Hs Hfresh. simpl in Hs. destruct (e_grp e t); inversion Hs; subst.
+  intros HL Hlen Hs Hlc Hfresh. simpl in Hs. destruct (grp t); inversion Hs; subst.
   eexists. split.
-  - apply parse_cookie_tag. rewrite generate_length by exact Hlen. reflexivity.
-  - simpl. apply cookie_roundtrip; assumption.
+  - apply parse_cookie_tag. exact Hlc.
+  - simpl. apply scheme_roundtrip; assumption.
 Qed.
 
 (* ------------------------------------------------------------------ witnesses against the code as found *)
 Definition toyH (d : bytes) : bytes := firstn 32 (d ++ repeat 0 32).
-Definition env0 : env :=
-  {| e_H := toyH; e_ttl := 60000000000; e_now_s := 1000; e_now_ns := 1000500000000; e_grp := fun _ => true |}.
+Definition env0 : env := mk_env head_scheme toyH 60000000000 1000 1000500000000 (fun _ => true).
 Definition tA : tuple := ([2; 0; 0; 170; 0; 1], 100, 10).
 Definition tB : tuple := ([2; 0; 0; 187; 0; 2], 100, 10).
 Definition padr_of (t : tuple) : op := PADR t (add_tag TagACCookie (generate toyH 1000 t)) Policy.
@@ -1280,16 +1449,20 @@ Proof. vm_compute. reflexivity. Qed.
 (* ------------------------------------------------------------------ composites *)
 (* a PADS is sent / a session created only for a cookie this BNG issued for the same tuple
    within its lifetime (under the unforgeability premise on the HMAC) *)
-Lemma admission v e s t p oc s' sid uid issued :
+Lemma admission v e s t p oc s' sid uid L H ttl now issued : lawful L ->
+  (* the component's validator accepts no more than the scheme's Validate at this moment *)
+  (forall c t', e_val e c t' = true -> svalidate L H ttl now c t' = true) ->
   (* H_mac_unforgeable for the one (message, tag) pair this PADR presents *)
-  (forall tg, parse_tags p = Ok tg -> firstn 32 (t_cookie tg) = e_H e (macd t (t_cookie tg)) ->
-              In (macd t (t_cookie tg)) (map enc_issue issued)) ->
+  (forall tg tag tsb, parse_tags p = Ok tg -> sc_unpack L (t_cookie tg) = Some (tag, tsb) ->
+                      tag = H (sc_msg L t tsb) -> In (sc_msg L t tsb) (map (smsg L) issued)) ->
   Forall wf_issue issued -> wf_tuple t ->
   step v e s (PADR t p oc) = Some (s', OPads sid uid) ->
-  exists ts, In (t, ts) issued /\ (e_now_ns e - Z.of_N ts * ns_per_s <= e_ttl e)%Z.
+  exists ts tg, parse_tags p = Ok tg /\ In (t, ts) issued /\ (now - Z.of_N ts * ns_per_s <= ttl)%Z /\
+                t_cookie tg = scookie L H (t, ts).
 Proof.
-  intros Hunf Hwf Hwt Hs. apply padr_needs_cookie in Hs as (tg & Hp & Hv & _).
-  eapply cookie_sound in Hv; eauto. destruct Hv as (ts & Hin & Hfresh & _). eauto.
+  intros HL Hle Hunf Hwf Hwt Hs. apply padr_needs_cookie in Hs as (tg & Hp & Hv & _).
+  apply Hle in Hv. eapply scheme_sound in Hv; eauto.
+  destruct Hv as (ts & Hin & Hfresh & Hc). eauto 6.
 Qed.
 
 (* a concrete HMAC stand-in for which the unforgeability premise holds, for non-vacuity *)
@@ -1373,14 +1546,17 @@ Qed.
 
 (* PADR level: in ANY table state (any earlier history, including this very PADR having been answered
    before), a PADR whose cookie has outlived the lifetime creates nothing *)
-Lemma padr_expired_no_state v e s t p oc tg a b c4 d s' r :
-  parse_tags p = Ok tg -> skipn 32 (t_cookie tg) = [a; b; c4; d] ->
-  (e_ttl e < e_now_ns e - Z.of_N (be32 a b c4 d) * ns_per_s)%Z ->
+Lemma padr_expired_no_state v e s t p oc tg L H ttl now tag tsb s' r : 
+  (forall c t', e_val e c t' = true -> svalidate L H ttl now c t' = true) ->
+  parse_tags p = Ok tg -> sc_unpack L (t_cookie tg) = Some (tag, tsb) ->
+  (ttl < now - Z.of_N (ts_of tsb) * ns_per_s)%Z ->
   step v e s (PADR t p oc) = Some (s', r) -> s' = s /\ r = ONone.
 Proof.
-  intros Hp Hs Hlt Hst. eapply padr_rejected_no_state; [exact Hst|].
-  intros tg' Hp'. rewrite Hp in Hp'. inversion Hp'; subst tg'. destruct t as [[mac sv] cv].
-  eapply validate_expired; eauto.
+  intros Hle Hp Hu Hlt Hst. eapply padr_rejected_no_state; [exact Hst|].
+  intros tg' Hp'. rewrite Hp in Hp'. inversion Hp'; subst tg'.
+  destruct (e_val e (t_cookie tg) t) eqn:Ev; [|reflexivity]. apply Hle in Ev.
+  unfold svalidate in Ev. rewrite Hu in Ev. apply andb_true_iff in Ev as [E1 _].
+  apply negb_true_iff, Z.ltb_ge in E1. lia.
 Qed.
 
 Example history_independence_nonvacuous :
@@ -1392,39 +1568,49 @@ Proof. vm_compute. reflexivity. Qed.
 
 (* admission is not vacuous: with oneH the premise holds for the presented PADR (and only because the
    one message whose tag it carries was issued), the PADR is answered, and the conclusion names the issue *)
-Definition envOne : env :=
-  {| e_H := oneH; e_ttl := 60000000000; e_now_s := 1000; e_now_ns := 1000500000000; e_grp := fun _ => true |}.
+Definition envOne : env := mk_env head_scheme oneH 60000000000 1000 1000500000000 (fun _ => true).
 Definition padrOne : bytes := add_tag TagACCookie (generate oneH 1000 tA).
 
 Lemma admission_nonvacuous :
-  (forall tg, parse_tags padrOne = Ok tg -> firstn 32 (t_cookie tg) = oneH (macd tA (t_cookie tg)) ->
-              In (macd tA (t_cookie tg)) (map enc_issue [(tA, 1000)])) /\
+  lawful head_scheme /\
+  (forall c t', e_val envOne c t' = true -> svalidate head_scheme oneH 60000000000 1000500000000 c t' = true) /\
+  (forall tg tag tsb, parse_tags padrOne = Ok tg -> sc_unpack head_scheme (t_cookie tg) = Some (tag, tsb) ->
+      tag = oneH (sc_msg head_scheme tA tsb) -> In (sc_msg head_scheme tA tsb) (map (smsg head_scheme) [(tA, 1000)])) /\
   Forall wf_issue [(tA, 1000)] /\ wf_tuple tA /\
   (exists s', step Repaired envOne st0 (PADR tA padrOne Policy) = Some (s', OPads 1 0)) /\
   (* other messages have a different tag *)
-  oneH (enc_issue (tB, 1000)) <> firstn 32 (generate oneH 1000 tA) /\
+  oneH (smsg head_scheme (tB, 1000)) <> oneH (smsg head_scheme (tA, 1000)) /\
   (* and the same PADR from another tuple is refused *)
   (exists s', step Repaired envOne st0 (PADR tB padrOne Policy) = Some (s', ONone)).
 Proof.
-  split.
-  - intros tg Hp _.
+  split; [exact head_scheme_lawful|]. split; [intros c t' Hv; exact Hv|]. split.
+  - intros tg tag tsb Hp Hu _.
     assert (Ht : parse_tags padrOne = Ok {| t_cookie := generate oneH 1000 tA; t_hostuniq := []; t_maxpayload := 0; t_nraw := 1 |})
       by (vm_compute; reflexivity).
-    rewrite Ht in Hp. inversion Hp; subst tg. left. vm_compute. reflexivity.
+    rewrite Ht in Hp. inversion Hp; subst tg.
+    assert (Hu' : sc_unpack head_scheme (generate oneH 1000 tA) = Some (firstn 32 (generate oneH 1000 tA), put32 1000))
+      by (vm_compute; reflexivity).
+    change (t_cookie _) with (generate oneH 1000 tA) in Hu.
+    rewrite Hu' in Hu. inversion Hu; subst. left. reflexivity.
   - split; [repeat constructor; simpl; unfold two32; lia|]. split; [simpl; lia|].
     split; [eexists; vm_compute; reflexivity|]. split; [vm_compute; discriminate|].
     eexists; vm_compute; reflexivity.
 Qed.
 
-Lemma admission_pend v e s t p oc s' sid uid issued :
-  (forall tg, parse_tags p = Ok tg -> firstn 32 (t_cookie tg) = e_H e (macd t (t_cookie tg)) ->
-              In (macd t (t_cookie tg)) (map enc_issue issued)) ->
+Lemma admission_pend v e s t p oc s' sid uid L H ttl now issued : lawful L ->
+  (* the component's validator accepts no more than the scheme's Validate at this moment *)
+  (forall c t', e_val e c t' = true -> svalidate L H ttl now c t' = true) ->
+  (* H_mac_unforgeable for the one (message, tag) pair this PADR presents *)
+  (forall tg tag tsb, parse_tags p = Ok tg -> sc_unpack L (t_cookie tg) = Some (tag, tsb) ->
+                      tag = H (sc_msg L t tsb) -> In (sc_msg L t tsb) (map (smsg L) issued)) ->
   Forall wf_issue issued -> wf_tuple t ->
   step v e s (PBEGIN t p oc) = Some (s', OPend sid uid) ->
-  exists ts, In (t, ts) issued /\ (e_now_ns e - Z.of_N ts * ns_per_s <= e_ttl e)%Z.
+  exists ts tg, parse_tags p = Ok tg /\ In (t, ts) issued /\ (now - Z.of_N ts * ns_per_s <= ttl)%Z /\
+                t_cookie tg = scookie L H (t, ts).
 Proof.
-  intros Hunf Hwf Hwt Hs. apply pbegin_needs_cookie in Hs as (tg & Hp & Hv & _).
-  eapply cookie_sound in Hv; eauto. destruct Hv as (ts & Hin & Hfresh & _). eauto.
+  intros HL Hle Hunf Hwf Hwt Hs. apply pbegin_needs_cookie in Hs as (tg & Hp & Hv & _).
+  apply Hle in Hv. eapply scheme_sound in Hv; eauto.
+  destruct Hv as (ts & Hin & Hfresh & Hc). eauto 6.
 Qed.
 
 (* before 9893c59 (unguarded removeFromIndexes): host A gives its session host B's Username and PADTs its own session;
@@ -1585,3 +1771,14 @@ Proof.
   intros Hadm ttl now c t issued Hunf Hwf Hwt Hv. eapply cookie_sound; eauto.
   eapply admissible_verdict_sound; [apply Hadm | exact Hv].
 Qed.
+
+(* the same history under another lawful cookie layout (ts | tag, message ts | mac | vlans): nothing in the
+   admission / isolation behaviour depends on the layout *)
+Example alt_scheme_history :
+  let e := mk_env alt_scheme toyH 60000000000 1000 1000500000000 (fun _ => true) in
+  let ck t := add_tag TagACCookie (sgenerate alt_scheme toyH 1000 t) in
+  match run Repaired e st0 [PADI tA; PADR tA (ck tA) Policy; PADR tB (ck tA) Policy; PADR tB (ck tB) (Chose 9)] with
+  | Some (_, [OPado c; OPads 1 0; ONone; OPads 9 1]) => c = sgenerate alt_scheme toyH 1000 tA
+  | _ => False
+  end.
+Proof. vm_compute. reflexivity. Qed.
